@@ -41,6 +41,7 @@ RULE = ('A case is a history: 1-3 example sets (C03 templates, default '
         'case hash.')
 RULE += ' ' + 'Also: input forms dict with zero-count keys, categorical Series with unused categories, byte strings with utf-8-sig (BOM-prefixed duplicates) and byte-string frequency dictionaries; pruning options (where repeating an example is a different multiset and is not generated); empty multisets by construction; the interpreter differential works on pairs of sets sharing their options, half of the interpreters in reverse order.'
 RULE += ' ' + 'Round 6: the third documented input form, a check function modelled on rexpy.example_check_function (random.sample of the failures beyond maxN), compared among its own calls; constructed sets of eight words where one of two extra letters is rare and do_all is 2-4, extracted twice through a check function with one seed and a disturbed global generator in between.'
+RULE += ' ' + "Round 7: seed 'seed-a' in the interpreter differential; defaultdict input with the zero-count entry a lookup leaves behind."
 ASSUMPTIONS = ['Series form goes through pdextract, which only takes a seed: '
                'it is compared with the default-option list extraction']
 
